@@ -1,4 +1,5 @@
 import Vata.Parse
+import Vata.Generated.Tables
 import Driver.NfaHist
 import Driver.TaHist
 import Driver.MtHist
@@ -47,8 +48,9 @@ def emptyE (A : TA) : Except String Bool := getE (emptyM A FUEL) "fuel(empty)"
 def selNames : List String :=
   ["up", "up+sim", "down-nonrec", "down-nonrec+sim", "down-rec", "down-rec+sim", "down-rec-opt", "down-rec-opt+sim", "default"]
 
-/-- option words (see `InclParam`) implemented by the explicit encoding -/
-def implExpl : List Nat := [0, 16, 2, 18, 10, 26, 14, 30]
+/-- option words (see `InclParam`) implemented by the explicit encoding: the table regenerated from /repo's dispatcher
+(`Vata.Gen.explDispatch`, theorems in `Vata/Properties/Dispatch.lean`); the `inclall` cases validate it at run time -/
+def implExpl : List Nat := Vata.Gen.explDispatch.map (·.word)
 
 def checkIncl (args res : List String) : Except String (Findings × String) := do
   let A ← getE (args[0]? >>= parseTA?) "bad A"
